@@ -10,7 +10,7 @@ RULE = ("enumerated: (1) the full CELL MATRIX (binary operator incl. op-assign f
         "type of the right operand) over 14 operand types (int, bigint, float, byte, bool, str, open list, fixed-shape list, map, "
         "plain and built-in-produced present optionals, function, object) with operands held in run-time variables, unary - and !, "
         "(2) the POSITION MATRIX (annotated initializer, re-assignment, argument, return, list element, map value, class field, "
-        "from-loop bound/step x declared type x supplied type), (3) every built-in method call of C14's in-domain catalogue and every list / map built-in on containers whose key, value and element kinds all differ, (4) a "
+        "from-loop bound/step x declared type x supplied type), (3) every built-in method call of C14's in-domain catalogue and every list / map built-in on containers whose key, value and element kinds all differ, unary operators applied directly to elements / entries / fields / call results, booleans that are elements / entries / fields / call results / unwrapped optionals in every boolean position (if, else-if, while, assert, either side of && and ||, !, ==, argument, return), (4) a "
         "catalogue of boundary cases of individual typing rules; random: programs of every generator (C01/C07/C08/C12/C13/C15/C17). "
         "Oracle for every program the compiler ACCEPTS: it must not stop with a failure outside the language's defined dynamic "
         "failures (classified from stderr: invalid operation, cannot compare, not in scope / not mapped, not a function, missing "
@@ -37,6 +37,9 @@ TYPES = {
     "optint": ["{v}: int? = {w}", ("6", "3")],
     "optint-builtin": ["{v}: int? = {w}", ("\"6\".parse_int()", "\"3\".parse_int()")],
     "optstr-builtin": ["{v}: str? = {w}", ("sopt(\"ab\")", "sopt(\"c\")")],
+    "optobj": ["{v}: K? = {w}", ("K()", "K()")],
+    "optlist": ["{v}: [int...]? = {w}", ("[1, 2]", "[3]")],
+    "listobj": ["{v}: [K...] = {w}", ("[K()]", "[K()]")],
     "fn": ["{v} = fn() -> int {{\n\treturn {w}\n}}", ("6", "3")],
     "obj": ["{v} = {w}", ("K()", "K()")],
 }
@@ -50,7 +53,7 @@ TYPE_ERRORS = ["is invalid. (valid ops are", "cannot compare", "cannot negate", 
                "expected a mutable heap primitive", "is not a HeapPrimitive", "cannot be used on", "can only store a single item", "ret can only return", "not comparable",
                "the compiler allowed", "STACK MISMATCH", "not an Int", "not a Float", "not a BigInt", "not a Bool", "malformed byte", "this function is not a callback",
                "does not have", "already borrowed", "requires a", "expected "]
-ALLOWED = ["<Nil ", " Nil>", "An explicit assertion failed", "unwrap of `nil`", "nil object", "out of bounds", "/ by 0", "% by 0", "with overflow", "overflow/underflow", "cannot be made into",
+ALLOWED = ["<Nil ", " Nil>", "stack overflow: calls are nested too deeply", "An explicit assertion failed", "unwrap of `nil`", "nil object", "out of bounds", "/ by 0", "% by 0", "with overflow", "overflow/underflow", "cannot be made into",
            "overflowed its stack", "could not fit", "is an invalid radix", "is an invalid power", "could not be used to index", "removal index", "cannot delete", "does not fit in a bigint",
            "byte index", "is out of range for a string", "is not a char boundary", "range end index", "range start index", "slice index", "to the power of"]
 
@@ -166,8 +169,43 @@ def cell_programs():
              "li.len()", "li[0]", "ls[0]", "lf[0]", "lb[0]", "li.remove(0)", "ls.remove(0)", "lf.remove(1)", "lb.remove(0)", "li.index_of(4)", "ls.index_of(\"b\")", "lf.index_of(2.5)",
              "li.clone()", "(li.clone())[0]", "(ls.clone())[0]", "li.reverse()", "li.join([9])", "(ls.join([\"z\"]))[2]", "li.map(i2s)", "(li.map(i2s))[0]", "(ls.map(s2i))[0]", "(lf.map(f2b))[0]",
              "li.filter(isbig)", "(li.filter(isbig))[0]", "li == [3, 4, 5]", "li + [1]", "(li + [1])[3]", "ls + [\"q\"]", "(ls + [\"q\"])[0]"]
+    # unary operators applied DIRECTLY to an element / entry / field / call result / built-in result (operands that arrive as
+    # references or wrapped optionals)
+    exprs += ["-li[0]", "-lf[1]", "-lb[0]", "-mf[1]", "-ms[\"k\"]", "!(mb[\"t\"])", "-(li.remove(0))", "-(s2i(\"ab\"))", "-(get li.index_of(4))", "-(get \"12\".parse_int())",
+              "-ko.n", "-(ko.n)", "!kb[0]", "!(f2b(2.5))", "-li[0] + li[1]", "li[0] - -li[1]", "-(-li[0])", "!(!kb[0])", "-(li[0] * 2)", "(-li[0]).abs()", "typeof -li[0]"]
+    COLL2 = COLL + KCLASS + "ko = K()\nkb: [bool...] = [true, false]\n"
     for e in exprs:
-        out.append(("coll|%s" % e, COLL + "print \"@run\"\n" + probe(e)))
+        out.append(("coll|%s" % e, COLL2 + "print \"@run\"\n" + probe(e)))
+    out += boolean_context_programs()
+    return out
+
+
+def boolean_context_programs():
+    """a boolean that is NOT a plain variable - an element, an entry, a field, a field of an element, a call / method
+    result, an unwrapped optional (operands that arrive as references to cells or wrapped values) - in every position
+    that consumes a boolean: if, else-if, while, assert, either side of && and ||, !, ==, argument, return"""
+    pre = ("class BK {\n\tok: bool\n\tconstructor(self) {\n\t\tself.ok = true\n\t}\n\tfn check(self) -> bool {\n\t\treturn self.ok\n\t}\n}\n"
+           "kb: [bool...] = [true, false]\nmb: map[str, bool] = map[str, bool] {\"t\": true}\nbo = BK()\nlob: [BK...] = [BK()]\nkk: [[bool...]...] = [[true]]\n"
+           "flagv = true\nisok = fn() -> bool {\n\treturn flagv\n}\noptb: bool? = true\ntt = true\nff = false\nzero = 0\n"
+           "fb = fn(b: bool) -> str {\n\tif b {\n\t\treturn \"yes\"\n\t}\n\treturn \"no\"\n}\n")
+    sources = [("element", "kb[0]", "kb[0] = false"), ("entry", "mb[\"t\"]", "mb[\"t\"] = false"), ("field", "bo.ok", "bo.ok = false"),
+               ("field-of-element", "(lob[0]).ok", "t0 = lob[0]\n\tt0.ok = false"), ("nested-element", "kk[0][0]", "kk[0][0] = false"), ("call", "isok()", "flagv = false"),
+               ("method", "bo.check()", "bo.ok = false"), ("get", "(get optb)", "optb = false"), ("or", "(optb or false)", "optb = false"), ("paren-element", "(kb[0])", "kb[0] = false")]
+    out = []
+    for sname, S, unset in sources:
+        ctxs = {"if": "if %s {\n\tprint \"T\"\n} else {\n\tprint \"F\"\n}\n" % S,
+                "else-if": "if zero == 1 {\n\tprint \"Z\"\n} else if %s {\n\tprint \"T\"\n} else {\n\tprint \"F\"\n}\n" % S,
+                "while": "n = 0\nwhile %s {\n\tn = n + 1\n\t%s\n}\nprint n\n" % (S, unset),
+                "while-and": "n = 0\nwhile %s && n < 3 {\n\tn = n + 1\n}\nprint n\n" % S,
+                "while-and-right": "n = 0\nwhile n < 3 && %s {\n\tn = n + 1\n}\nprint n\n" % S,
+                "assert": "assert %s\nprint \"held\"\n" % S,
+                "and-left": probe("%s && tt" % S), "and-right": probe("tt && %s" % S), "or-left": probe("%s || ff" % S), "or-right": probe("ff || %s" % S),
+                "and-both": probe("%s && %s" % (S, S)), "not": probe("!%s" % S), "eq": probe("%s == tt" % S), "neq-self": probe("%s != %s" % (S, S)),
+                "argument": "print fb(%s)\n" % S, "return": "rf = fn() -> bool {\n\treturn %s\n}\n" % S + probe("rf()"),
+                "if-after-unset": "if true {\n\t%s\n}\nif %s {\n\tprint \"T\"\n} else {\n\tprint \"F\"\n}\n" % (unset, S),
+                "store-then-if": "sv = %s\nif sv {\n\tprint \"T\"\n}\n" % S}
+        for cname, body in ctxs.items():
+            out.append(("boolctx|%s|%s" % (sname, cname), pre + "print \"@run\"\n" + body))
     return out
 
 
@@ -215,6 +253,12 @@ def catalogue():
     c.append(("cat|modify-function-local-from-block", "f = fn() -> int {\n\ta = 3\n\tif true {\n\t\tmodify a = 7\n\t}\n\treturn a\n}\nprint \"@run\"\n" + probe("f()")))
     c.append(("cat|modify-local-shadow-of-captured", "a = 5\nf = fn() -> int {\n\ta = 3\n\tfrom 0 to 2 {\n\t\tmodify a = 7\n\t}\n\treturn a\n}\nprint \"@run\"\n" + probe("f()") + probe("a")))
     c.append(("cat|modify-closure-local-from-block", "mk = fn() -> fn() -> int {\n\tc = 0\n\treturn fn() -> int {\n\t\tl = c\n\t\twhile l < 2 {\n\t\t\tmodify l = l + 1\n\t\t}\n\t\treturn l\n\t}\n}\ng = mk()\nprint \"@run\"\n" + probe("g()")))
+    CH = "class Engine {\n\tpower: int\n\tconstructor(self, power: int) {\n\t\tself.power = power\n\t}\n\tfn boosted(self, k: int) -> int {\n\t\treturn self.power * k\n\t}\n\tfn me(self) -> Self {\n\t\treturn self\n\t}\n}\n" \
+         "class Car {\n\tengine: Engine\n\tconstructor(self) {\n\t\tself.engine = Engine(3)\n\t}\n}\ncar = Car()\neng = Engine(4)\nprint \"@run\"\n"
+    # a method taken off its object (rejected today; if it is ever accepted the value must be callable with the declared arity)
+    for name, e in (("one-link", "eng.boosted"), ("two-links", "car.engine.boosted"), ("after-call", "eng.me().boosted"), ("three-links", "car.engine.me().boosted")):
+        c.append(("cat|method-as-value-" + name, CH + "f = %s\n" % e + probe("f(2)")))
+    c.append(("cat|method-chain-call", CH + probe("car.engine.boosted(2)") + probe("car.engine.me().boosted(2)") + probe("car.engine.me().power")))
     c.append(("cat|if-without-else-returns", "f = fn(a: int) -> int {\n\tif a > 0 {\n\t\treturn 1\n\t}\n}\nprint \"@run\"\n" + probe("f(0)")))
     c.append(("cat|else-if-without-else-returns", "f = fn(a: int) -> int {\n\tif a > 0 {\n\t\treturn 1\n\t} else if a < 0 {\n\t\treturn 2\n\t}\n}\nprint \"@run\"\n" + probe("f(0)")))
     c.append(("cat|loop-only-return", "f = fn(a: int) -> int {\n\tfrom 0 to a {\n\t\treturn 1\n\t}\n}\nprint \"@run\"\n" + probe("f(0)")))
